@@ -9,7 +9,7 @@ from vf.core import sig_of  # noqa: E402
 
 ID = "C18"
 LEVEL = "exploration"
-RULE = ("grids with 0-2 leading blank rows, optional blank first column, known columns in random order, a contiguous "
+RULE = ("grids with 0-2 leading blank rows, optional blank first column, known columns in random order (titles sometimes padded with blanks, ranged titles sometimes numbers), a contiguous "
         "group of 1-3 ranged columns, unknown extra columns behind a known one, blank cells anywhere, 0-8 data rows, "
         "rows with blank key, trailing content after a blank row / a row with blank first cell; rule sets: str / int / "
         "bool / list / set readers, ranged set or ranged dict or no ranged attribute, optional column present or "
@@ -117,6 +117,9 @@ def gen_sheet(rng):
     spec['stop_on'] = rng.choice(["blank all", "blank all", "blank first"])
     lead = rng.randint(0, 1) if spec['stop_on'] == "blank all" else 0
     rcols = ["m%d" % i for i in range(rng.randint(1, 3))] if spec['range_kind'] != 'none' else []
+    numeric_titles = rng.random() < 0.3
+    if numeric_titles:
+        rcols = [str(2020 + i) for i in range(len(rcols))]   # title cells hold numbers (per-year columns)
     kn = [k[1] for k in KNOWN] + (['Opt'] if spec['have_opt'] else [])
     rng.shuffle(kn)
     if rng.random() < 0.5:
@@ -168,6 +171,11 @@ def gen_sheet(rng):
             [None, "r%d" % i, " s "])
 
     data = [[val_for(t, i) for t in titles] for i in range(ndata)]
+    if spec['ladder'] and lead and spec['stop_on'] == "blank all":
+        for row in data[1:]:
+            if rng.random() < 0.25:
+                # only a margin note left of the table: the row means 'all the same as above'
+                row[:] = ["note"] + [None] * (len(row) - 1)
     if spec['stop_on'] == "blank first":
         for row in data:
             if blank(row[0]) and rng.random() < 0.7:
@@ -182,8 +190,10 @@ def gen_sheet(rng):
             trailing[0] = [" "] + [None] * (ncol - 1)   # blank, but not None
     elif r < 0.6:
         trailing = [[None] + ["tail"] * (ncol - 1), ["k98"] * ncol]
+    title_cells = [int(t) if (numeric_titles and t in rcols) else
+                   (" %s " % t if t and rng.random() < 0.1 else t) for t in titles]
     spec.update(titles=titles, nblank=nblank, trailing=bool(trailing), extras=extras, rcols=rcols,
-                grid=[[None] * ncol for _ in range(nblank)] + [titles] + data + trailing)
+                grid=[[None] * ncol for _ in range(nblank)] + [title_cells] + data + trailing)
     return spec
 
 
